@@ -443,6 +443,37 @@ func ackThenFile(ctx *core.Ctx, bin string, round int) {
 			return ok, nil
 		}},
 	}
+	// a write followed, in the same packet, by reads whose replies exceed a megabyte
+	shapes = append(shapes, shape{"write-then-big-replies-one-packet", func(tok string) (bool, error) {
+		pc, err := respc.Dial(s.Addr(), 5*time.Second)
+		if err != nil {
+			return false, err
+		}
+		pc.Timeout = 60 * time.Second
+		pc.Do("SET", "bigr", "v", "STRING", big(1500000))
+		pc.Close()
+		c, err := dial()
+		if err != nil {
+			return false, err
+		}
+		defer c.Close()
+		var b []byte
+		b = append(b, respc.Encode("SET", "p", "br1", "STRING", tok)...)
+		b = append(b, respc.Encode("GET", "bigr", "v")...)
+		b = append(b, respc.Encode("GET", "bigr", "v")...)
+		if _, err := c.Write(b); err != nil {
+			return false, err
+		}
+		c.SetReadDeadline(time.Now().Add(20 * time.Second))
+		buf := make([]byte, 5)
+		if _, err := io.ReadFull(c, buf); err != nil {
+			return false, nil
+		}
+		return string(buf) == "+OK\r\n", nil
+	}})
+	// a multi-field FSET whose last pair changes nothing
+	shapes = append(shapes, shape{"fset-last-pair-unchanged", respDo([][]string{{"SET", "p", "f2", "FIELD", "load", "5", "POINT", "1", "2"}}, "FSET", "p", "f2", "tokf", "@T", "load", "5")})
+	shapes = append(shapes, shape{"fset-first-pair-unchanged", respDo([][]string{{"SET", "p", "f3", "FIELD", "load", "5", "POINT", "1", "2"}}, "FSET", "p", "f3", "load", "5", "tokf", "@T")})
 	// a write followed, in the same packet, by a command that turns the connection into a live one
 	for _, lv := range [][]string{{"SUBSCRIBE", "chlive"}, {"PSUBSCRIBE", "chl*"}, {"NEARBY", "p", "FENCE", "POINT", "1", "2", "100"}, {"WITHIN", "p", "FENCE", "BOUNDS", "0", "0", "5", "5"}, {"AOF", "0"}, {"MONITOR"}} {
 		lv := lv
